@@ -385,7 +385,8 @@ class _FoldTests(ast.NodeTransformer):
             l, r = node.left, node.comparators[0]
             for a, b in ((l, r), (r, l)):
                 if isinstance(b, ast.Constant) and b.value is None:
-                    notnone = (isinstance(a, ast.Constant) and a.value is not None) or isinstance(a, (ast.Lambda, ast.Dict, ast.List, ast.Tuple, ast.Set, ast.JoinedStr)) or (isinstance(a, ast.Name) and a.id in _NON_NONE_BUILTINS)
+                    notnone = (isinstance(a, ast.Constant) and a.value is not None) or isinstance(a, (ast.Lambda, ast.Dict, ast.List, ast.Tuple, ast.Set, ast.JoinedStr)) or (isinstance(a, ast.Name) and a.id in _NON_NONE_BUILTINS) \
+                        or (isinstance(a, ast.Name) and a.id in _ONCE.get("defs", ()) and a.id not in _ONCE.get("locals", ()))
                     if notnone:
                         self.n += 1
                         return ast.copy_location(ast.Constant(isinstance(node.ops[0], ast.IsNot)), node)
@@ -785,6 +786,7 @@ def run(fn: ast.AST, noreturn: Set[str]) -> int:
         elif isinstance(x, ast.arg):
             cnt[x.arg] = cnt.get(x.arg, 0) + 1
     _ONCE["names"] = {k for k, v in cnt.items() if v == 1}
+    _ONCE["locals"] = set(cnt)
     n = drop_self_assignments(fn)
     for _k in range(4):
         e = expand_table_lookups(fn)
